@@ -44,7 +44,7 @@ theorem global_defective_state (cfg : Cfg) (hv : cfg.via = .g) (name : Name) (s 
     (b : Body) (hsys : sysLoad name = none) (hget : s.get .g (keyOf name) = none)
     (hi : idx cfg .g (keyOf name) = p :: ps) (hb : bodyAt cfg.tree p = some b) (hd : Defective b name) :
     loadS (n+7) cfg s name = (.failed (defectErr p b), (s.put .g (keyOf name) none).addRead p) := by
-  obtain ⟨mods, tree, via, gi⟩ := cfg
+  obtain ⟨mods, tree, via, gi, fl⟩ := cfg
   simp only at hv
   subst hv
   unfold loadS load
